@@ -666,7 +666,7 @@ def run(ctx):
         "Simulation gradient only for f > 0 without mu_r / epsilon_r "
         "(emg3d implements nothing else); receivers and source inside the "
         "box of interior nodes")
-    cap = ctx.budget or (100 if ctx.quick else 1200)
+    cap = ctx.budget or (400 if ctx.quick else 2400)
     prepare(ctx)      # import emg3d / compile once in the parent, then fork
     if ctx.wants('maps'):
         ctx.explore('maps', FN_MAPS, cases_maps(ctx.tier), engine='E1',
